@@ -93,7 +93,8 @@ def make_stmt(ctx_name, calls):
     raise Unsupported(ctx_name)
 
 def entry_for(item, sampler, out):
-    ctx_name, backend, H, D, W = item
+    ctx_name, backend, H, D, W = item[:5]
+    none_mode = item[5] if len(item) > 5 else NONE_MODE
     def entry(e):
         sq = SQ(e)
         counter = [0]
@@ -105,7 +106,7 @@ def entry_for(item, sampler, out):
             else:
                 # later calls of a history use shallower trees (the merge logic only looks at the top node)
                 d = D if ci == 0 else max(1, D - 1)
-                calls.append(('cond', gen_tree(e, d, W, counter, NONE_MODE if ci == 0 else (NONE_MODE == 'all'))))
+                calls.append(('cond', gen_tree(e, d, W, counter, none_mode if ci == 0 else (none_mode == 'all'))))
         st, kw = make_stmt(ctx_name, calls)
         txt, _ = sqstmt.render(sq, st['k'], sq.stmt(st), backend)
         s = ''.join(chr(c) for c in txt)
@@ -222,10 +223,11 @@ def run(ctx):
         for c in ('select_having', 'update_where', 'delete_where'): items.append((c, 'mysql', 2, 1, 2))
         items += [('join_on', 'mysql', 1, 2, 2), ('case_when', 'mysql', 1, 2, 2), ('select_where', 'postgres', 2, 1, 2), ('select_where', 'sqlite', 2, 1, 2)]
     else:
-        items += [('select_where', 'mysql', 2, 2, 3), ('select_where', 'mysql', 3, 2, 2), ('select_where', 'postgres', 2, 2, 2), ('select_where', 'sqlite', 2, 2, 2)]
-        for c in ('select_having', 'update_where', 'delete_where'): items.append((c, 'mysql', 2, 2, 2))
-        items += [('join_on', 'mysql', 1, 3, 2), ('case_when', 'mysql', 1, 3, 2), ('join_on', 'postgres', 1, 2, 2), ('case_when', 'sqlite', 1, 2, 2)]
-    ctx.bounds = {'items': ['%s/%s: history of <= %d calls, trees of depth <= %d and width <= %d' % it for it in items],
+        # add_option(None) members at every level ('all') only where the history is short; the deeper items keep them in the top group of the first call
+        items += [('select_where', 'mysql', 2, 2, 2, 'all'), ('select_where', 'mysql', 2, 2, 3, 'top'), ('select_where', 'mysql', 3, 1, 2, 'top'), ('select_where', 'postgres', 2, 2, 2, 'top'), ('select_where', 'sqlite', 2, 2, 2, 'top')]
+        for c in ('select_having', 'update_where', 'delete_where'): items.append((c, 'mysql', 2, 2, 2, 'top'))
+        items += [('join_on', 'mysql', 1, 3, 2, 'all'), ('case_when', 'mysql', 1, 3, 2, 'top'), ('join_on', 'postgres', 1, 2, 2, 'all'), ('case_when', 'sqlite', 1, 2, 2, 'all')]
+    ctx.bounds = {'items': ['%s/%s: history of <= %d calls, trees of depth <= %d and width <= %d' % it[:5] + (' (absent optional members: %s)' % it[5] if len(it) > 5 else '') for it in items],
                   'atoms': '%d atoms of three rendering kinds (column, comparison, function call); every atom is TRUE / FALSE / NULL (two solver Booleans)' % NATOMS,
                   'members': 'atom | nested group | add_option(None) (%s); any / all; negated or not; empty groups' % ('only in the top group of the first call' if quick else 'at every level')}
     ctx.assumptions += ['atoms are independent three-valued unknowns', 'the rendered predicate is read back with the reference parser of props/sqlparse.py',
@@ -246,7 +248,7 @@ def run(ctx):
     for it in items:
         prefixes = eng.frontier(entry_for(it, Sampler(0, first=0, every=10**9), []), ctx.workers * 4)
         for p in prefixes: work_items.append((it, p, ctx.seed))
-    ctx.families = ['%s/%s H<=%d D<=%d W<=%d' % it for it in items]
+    ctx.families = ['%s/%s H<=%d D<=%d W<=%d' % it[:5] for it in items]
     for res in ctx.pmap(work, work_items):
         if not merge_worker(ctx, res): continue
         for s in res['samples']:
